@@ -6,6 +6,10 @@
   cond  `if c: A else: B` becomes `if not c: B else: A`
   cmp   `a is not b` / `a != b` / `a not in b` become `not (a is b)` / `not (a == b)` / `not (a in b)`
   all   everything above
+  methods  the methods of every class in alphabetical order
+  while    `while 1:` becomes `while True:`
+  extract  `x = f(g(a), h(b))` becomes `_a0 = g(a); _a1 = h(b); x = f(_a0, _a1)`
+  all2     methods + while + extract
 and every claimed check must still exit 0 on the result.  Comments and layout are lost by unparse, which is part of the twin.
 Usage: selftest/shape_twins.py [--kind ret|first|both] [--checks C04,C12] [--keep DIR]
 Exit 0 when every check is silent; exit 2 otherwise (a defect of the checker, never a verdict about /repo)."""
@@ -27,6 +31,7 @@ class Reshape(ast.NodeTransformer):
     def __init__(self, kind):
         self.kind = kind
         self.depth = 0
+        self.counter = 0
 
     def visit_FunctionDef(self, node):
         self.depth += 1
@@ -39,7 +44,46 @@ class Reshape(ast.NodeTransformer):
             node.body.insert(k, marker)
         return node
 
+    def visit_ClassDef(self, node):
+        self.generic_visit(node)
+        if self.kind in ("methods", "all2"):
+            # the methods of a class in alphabetical order (the other statements of the class body stay in front, in their order)
+            funcs = [b for b in node.body if isinstance(b, ast.FunctionDef)]
+            rest = [b for b in node.body if not isinstance(b, ast.FunctionDef)]
+            # (a class body that uses a method as a value -- `tostr = tostr_a` -- keeps its order)
+            used = {n.id for b in rest for n in ast.walk(b) if isinstance(n, ast.Name)}
+            if not (used & {f.name for f in funcs}):
+                node.body = rest + sorted(funcs, key=lambda f: f.name)
+        return node
+
+    def visit_While(self, node):
+        self.generic_visit(node)
+        if self.kind in ("while", "all2") and isinstance(node.test, ast.Constant) and node.test.value == 1 and node.test.value is not True:
+            node.test = ast.Constant(value=True)
+        return node
+
+    def _hoist(self, s):
+        """`x = f(g(a), h(b))` -> `_a0 = g(a); _a1 = h(b); x = f(_a0, _a1)` (arguments are evaluated in the same order)"""
+        val = s.value if isinstance(s, (ast.Assign, ast.Expr, ast.Return, ast.AugAssign)) else None
+        if not isinstance(val, ast.Call) or self.depth == 0:
+            return [s]
+        if any(isinstance(a, ast.Starred) for a in val.args) or any(isinstance(n, (ast.NamedExpr, ast.Yield, ast.YieldFrom, ast.Lambda, ast.Await))
+                                                                      for n in ast.walk(val)):
+            return [s]
+        pre = []
+        for i, a in enumerate(val.args):
+            if isinstance(a, ast.Call):
+                self.counter += 1
+                name = "_a%d" % self.counter
+                pre.append(ast.Assign(targets=[ast.Name(id=name, ctx=ast.Store())], value=a, lineno=0))
+                val.args[i] = ast.Name(id=name, ctx=ast.Load())
+            elif not isinstance(a, (ast.Name, ast.Constant, ast.Attribute)):
+                break           # an argument that is evaluated in between keeps its place: stop hoisting here
+        return pre + [s]
+
     def _block(self, stmts):
+        if self.kind in ("extract", "all2"):
+            stmts = [x for s in stmts for x in self._hoist(s)]
         out = []
         for s in stmts:
             if isinstance(s, ast.Return) and s.value is not None and not isinstance(s.value, (ast.Name, ast.Constant)) and self.kind in ("ret", "both", "all") \
